@@ -38,14 +38,66 @@ def sig_of(v: dict[str, Any]) -> str:
 
 
 # ------------------------------------------------------------------ single run
+class SimHang(Exception):
+    """Raised by the per-run watchdog inside whatever code has been running for RUN_WALL_LIMIT seconds of *wall* time: one
+    simulated run takes milliseconds, so this is code that does not return (a parser looping for ever inside a protocol
+    callback).  Raised as an ordinary exception so that it surfaces where asyncio would see it: inside a protocol callback
+    it is recorded as an escape ("SimHang@<function>"), anywhere else it is a harness error."""
+
+
+RUN_WALL_LIMIT = float(os.environ.get("VERIF_RUN_WALL_LIMIT", "10"))
+
+
+HANGS: list[str] = []     # functions of the code under test the watchdog interrupted during the current run
+
+
+_LAST_ITER = [None]
+
+
+def _hang_handler(signum, frame):
+    # only a loop that made no progress at all since the previous tick is a hang (long runs are not)
+    try:
+        from . import seams
+        it = seams._CURRENT.loop.iteration if seams._CURRENT is not None else None   # pylint: disable=protected-access
+    except Exception:  # pylint: disable=broad-except
+        it = None
+    if it is not None and it != _LAST_ITER[0]:
+        _LAST_ITER[0] = it
+        return
+    f = frame
+    name = "?"
+    while f is not None:
+        if "/xknx/" in f.f_code.co_filename:
+            name = f.f_code.co_name
+            break
+        f = f.f_back
+    HANGS.append(name)
+    raise SimHang(f"no progress for {RUN_WALL_LIMIT:.0f} s of wall-clock time")
+
+
 def run_one(mod, plan: dict[str, Any]) -> dict[str, Any]:
     """Run a plan; harness exceptions become res['error'] (never a verdict)."""
     gc.disable()
+    armed = False
+    try:
+        import signal
+        import threading
+        if threading.current_thread() is threading.main_thread() and getattr(mod, "HANG_WATCHDOG", False):
+            del HANGS[:]
+            _LAST_ITER[0] = None
+            signal.signal(signal.SIGALRM, _hang_handler)
+            signal.setitimer(signal.ITIMER_REAL, RUN_WALL_LIMIT, RUN_WALL_LIMIT)
+            armed = True
+    except (ValueError, OSError, AttributeError):
+        armed = False
     try:
         res = mod.run(plan)
     except Exception:  # pylint: disable=broad-except
         res = {"violations": [], "error": traceback.format_exc(limit=12), "plan": plan}
     finally:
+        if armed:
+            import signal
+            signal.setitimer(signal.ITIMER_REAL, 0)
         gc.enable()
     res.setdefault("violations", [])
     res.setdefault("probes", {})
